@@ -2,7 +2,7 @@
 # usage: store_seed.py <Cxx> <A|B> "<confirmation line>"  -- copies a confirmed seeded change into /verif/seeded/<Cxx>-<A|B>/
 import sys, os, json, shutil
 pid, n, conf = sys.argv[1], sys.argv[2], sys.argv[3]
-src = '/tmp/seedout/%s' % pid
+src = os.environ.get('SEEDOUT', '/tmp/seedout') + '/%s' % pid
 dst = '/verif/seeded/%s-%s' % (pid, n)
 os.makedirs(dst, exist_ok=True)
 shutil.copy('%s/%s.patch.diff' % (src, n), dst + '/patch.diff')
